@@ -20,7 +20,7 @@ import logging
 import warnings
 
 from sim import factory
-from sim.kernel import LivenessViolation, Pipe, SimDeadlock, SimRaw, SimSocket, StepBudgetExceeded, World
+from sim.kernel import library_exception, LivenessViolation, Pipe, SimDeadlock, SimRaw, SimSocket, StepBudgetExceeded, World
 from sim.runner import Outcome
 
 ID = "C12"
@@ -61,7 +61,8 @@ ASSUMPTIONS = [
 ]
 EXPECTED_PROBES = ("wrap_in_group", "three_apids_open", "orphan_after_complete", "orphan_after_rejected", "sh_gt_segment",
                    "u_while_open", "superseded_first", "group_emitted", "group_gap_rejected", "drop", "dup", "reorder",
-                   "flag_flip", "count_jump", "producer_restart", "link_cut", "header_bits_vary", "wide_open_groups", "warnings_judged")
+                   "flag_flip", "count_jump", "producer_restart", "link_cut", "header_bits_vary", "wide_open_groups", "warnings_judged",
+                   "group_len_ge_17", "combined_gt_65542")
 COV_UNIVERSE = 32
 
 U, F, C, L = factory.FLAG_UNSEG, factory.FLAG_FIRST, factory.FLAG_CONT, factory.FLAG_LAST
@@ -126,7 +127,7 @@ def expected_raw(arrivals, idxs, sh):
 def run(ch, render=False):
     out = Outcome()
     w = World(ch, max_steps=100_000)
-    mode = ch.weighted([(1, "direct_simple"), (5, "direct"), (6, "link")], "mode")
+    mode = ch.weighted([(1, "direct_simple"), (5, "direct"), (6, "link"), (1, "long")], "mode")
     cov = set()
 
     # ---- knobs ---------------------------------------------------------------------------
@@ -162,7 +163,10 @@ def run(ch, render=False):
     sent_meta = []            # what the producers intended (for the rendered trace)
 
     def make_packet(idx, apid, flag, count, dlen):
-        body = bytes(((idx >> (8 * (j & 1))) & 0xFF) ^ (0x5A if j >= 2 and (j & 2) else 0) for j in range(dlen))
+        if dlen > 64:
+            body = bytes(((idx >> (8 * (j & 1))) & 0xFF) for j in range(2)) + bytes(dlen - 2)     # stamp + zeros
+        else:
+            body = bytes(((idx >> (8 * (j & 1))) & 0xFF) ^ (0x5A if j >= 2 and (j & 2) else 0) for j in range(dlen))
         version, type_, shf = 0, 0, (1 if sh else 0)
         if hdr_vary:
             version = ch.weighted([(5, 0), (1, 7), (1, 3)], "hv_version")
@@ -177,7 +181,33 @@ def run(ch, render=False):
         arrivals.append([apid, flag, count, make_packet(idx, apid, flag, count, dlen)])
 
     pipe = None
-    if mode in ("direct_simple", "direct"):
+    if mode == "long":
+        # what segmentation is for: long groups (many CONTINUATION packets) and large segments (combined length beyond
+        # one packet's 65542 bytes), on one APID with packets of another APID interleaved
+        big = ch.chance(1, 3, "long_big")
+        if big:
+            nseg = 2 + ch.draw(3, "big_nseg")
+            lens = [ch.pick((32768, 65536, 255, 256, 4090, 4100, 32767, 65535, 40000), "big_len") for _ in range(nseg)]
+        else:
+            nseg = ch.pick((8, 10, 17, 18, 33, 34, 65, 202, 7, 16), "long_nseg")
+            lens = [ch.weighted([(4, 3), (2, 1), (1, 9), (1, 40)], "dlen") for _ in range(nseg)]
+        a_main, a_other = apids[0], apids[-1]
+        cnt = starts[0] if ch.chance(1, 2, "long_wrap") else (16384 - nseg // 2) % 16384     # often wraps inside the group
+        gap_at = 1 + ch.draw(nseg - 1, "long_gap_at") if ch.chance(1, 4, "long_gap") else None
+        other_cnt = starts[-1]
+        for j in range(nseg):
+            flag = F if j == 0 else (L if j == nseg - 1 else C)
+            cnt = (cnt + (2 if gap_at == j else 1)) % 16384
+            deliver(a_main, flag, cnt, lens[j])
+            if a_other != a_main and ch.chance(1, 6, "long_inter"):
+                other_cnt = (other_cnt + 1) % 16384
+                deliver(a_other, U, other_cnt, 3)
+        if gap_at is None:
+            if nseg >= 17:
+                w.probe("group_len_ge_17")
+            if sum(lens) + 6 > 65542:
+                w.probe("combined_gt_65542")
+    elif mode in ("direct_simple", "direct"):
         if mode == "direct":
             n = 1 + ch.draw(ch.pick((6, 12, 30, 60), "nmax"), "n")
         counters = list(starts)
@@ -403,10 +433,11 @@ def run(ch, render=False):
                 n_warn[0] += 1
                 warned_at.add(pulled[0] - 1)
             warnings.showwarning = showwarning
-            gen = _defn.packet_generator(source, combine_segmented_packets=True, secondary_header_bytes=sh,
-                                         buffer_read_size_bytes=rs, skip_header_bytes=k)
+            gen = None
             w.ev("consumer", "start", srckind, sh, k)
             try:
+                gen = _defn.packet_generator(source, combine_segmented_packets=True, secondary_header_bytes=sh,
+                                             buffer_read_size_bytes=rs, skip_header_bytes=k)
                 while True:
                     if len(observed) > n_arr + 2:
                         err = ("too_many_items", f"more than {n_arr + 2} outputs from {n_arr} arrivals")
@@ -421,10 +452,12 @@ def run(ch, render=False):
             except (LivenessViolation, SimDeadlock, StepBudgetExceeded) as e:
                 err = (type(e).__name__, str(e))
             except Exception as e:
+                library_exception(e)
                 err = ("exception", f"{type(e).__name__}: {e}")
             finally:
                 try:
-                    gen.close()
+                    if gen is not None:
+                        gen.close()
                 except Exception:
                     pass
     finally:
